@@ -288,6 +288,24 @@ def check_likelihood(e1: int, e2: int, n_out: int, n_mech: int,
         ok = ok and pm.n_parameters() == n == len(pm.get_parameter_names())
         pm.fix_parameters(fixed)
         ok = ok and pm.n_parameters() == n2 == len(pm.get_parameter_names())
+    # the same error-model *instance* handed in for every output: distinct
+    # parameters still carry distinct names, in output order
+    if n_out == 2 and e1 == e2:
+        shared = _error_model(e1)
+        for obj in (chi.PredictiveModel(Toy(n_mech, 2), [shared, shared]),
+                    chi.LogLikelihood(Toy(n_mech, 2), [shared, shared],
+                                      [[1.5, 2.5], [2.0]],
+                                      [[1.0, 2.0], [1.5]]),
+                    chi.ProblemModellingController(
+                        Toy(n_mech, 2), [shared, shared])):
+            nm = obj.get_parameter_names()
+            cnt = obj.get_n_parameters() if hasattr(
+                obj, 'get_n_parameters') else obj.n_parameters()
+            ok = ok and len(nm) == cnt == n_mech + 2 * shared.n_parameters()
+            ok = ok and len(set(nm)) == len(nm)
+            k_ = shared.n_parameters()
+            ok = ok and all('out0' in x for x in nm[n_mech:n_mech + k_])
+            ok = ok and all('out1' in x for x in nm[n_mech + k_:])
     return bool(ok)
 
 
